@@ -189,6 +189,15 @@ def pair_ops(E, cfg):
     _check_result(E, 'div-qu', lambda: qa / v, div_vec, ra / sv, info)
     _check_result(E, 'div-uq', lambda: u / qb, div_vec, su / rb, info)
     _check_result(E, 'div-uu', lambda: u / v, div_vec, su / sv, info)
+    # the same pair in the other operand order, after the first order was evaluated (shared
+    # unit-operation cache): results must still match the oracle
+    rdiv_vec = _combine(dv, du, -1)
+    _check_result(E, 'rdiv-uu', lambda: v / u, rdiv_vec, sv / su, info)
+    _check_result(E, 'rdiv-qq', lambda: qb / qa, rdiv_vec, rb / ra, info)
+    _check_result(E, 'rmul-uu', lambda: v * u, mul_vec, su * sv, info)
+    _check_result(E, 'rmul-qq', lambda: qb * qa, mul_vec, ra * rb, info)
+    _check_result(E, 'again-div-uu', lambda: u / v, div_vec, su / sv, info)
+    _check_result(E, 'again-mul-uu', lambda: u * v, mul_vec, su * sv, info)
     E.observe('ra', ra)
     if cfg.get('canary'):
         r = qa * qb
